@@ -281,7 +281,7 @@ def _compare_conditions():
     def nth_compare(text):
         def pick(fn):
             for n in ast.walk(fn):
-                if isinstance(n,(ast.Compare,ast.BoolOp,ast.BinOp,ast.Call,ast.Subscript)) and ast.unparse(n)==text: return n
+                if isinstance(n,(ast.Compare,ast.BoolOp,ast.BinOp,ast.Call,ast.Subscript,ast.UnaryOp)) and ast.unparse(n)==text: return n
             return None
         return pick
     out.append(t_expr(S,"_get_nearest_block","nearest_block_is_later",[("bs","Z"),("he","Z")],"bool",nth_compare("block.start >= header.end"),cond=True,aliases={"block.start":"bs","header.end":"he"}))
@@ -298,6 +298,18 @@ def _compare_conditions():
     out.append(t_expr(MA,"find_all","find_all_after_last",[("ps","Z"),("me","Z")],"bool",nth_compare("pattern.start >= matches[-1].end"),cond=True,aliases={"pattern.start":"ps","matches[-1].end":"me"}))
     PA="codelimit/common/gsm/Pattern.py"
     out.append(t_expr(PA,"Pattern.consume","group_is_open",[("depth","Z")],"bool",nth_compare("getattr(self._predicate(t), 'depth', 0) > 0"),cond=True,aliases={"getattr(self._predicate(t), 'depth', 0)":"depth"}))
+    # ---- third batch: the hidden-name rule of scan and check, the totals-row test of both overviews
+    SCN = "codelimit/common/Scanner.py"
+    CHK = "codelimit/commands/check.py"
+    dot = {"f[0]": "c0", "d[0]": "c0", "'.'": "46"}
+    out.append(t_expr(SCN, "scan_path", "scan_keeps_file", [("c0", "Z")], "bool", nth_compare("not f[0] == '.'"), cond=True, aliases=dot))
+    out.append(t_expr(SCN, "scan_path", "scan_keeps_dir", [("c0", "Z")], "bool", nth_compare("not d[0] == '.'"), cond=True, aliases=dot))
+    out.append(t_expr(CHK, "check_command", "check_keeps_file", [("c0", "Z")], "bool", nth_compare("not f[0] == '.'"), cond=True, aliases=dot))
+    out.append(t_expr(CHK, "check_command", "check_keeps_dir", [("c0", "Z")], "bool", nth_compare("not d[0] == '.'"), cond=True, aliases=dot))
+    out.append(t_expr("codelimit/common/ScanResultTable.py", "ScanResultTable.__init__", "text_totals_row", [("n", "Z")], "bool",
+                      nth_compare("len(scan_totals_current.languages()) > 1"), cond=True, aliases={"len(scan_totals_current.languages())": "n"}))
+    out.append(t_expr("codelimit/common/report/format_markdown.py", "_print_totals", "md_totals_row", [("n", "Z")], "bool",
+                      nth_compare("len(scan_totals_current.languages_totals()) > 1"), cond=True, aliases={"len(scan_totals_current.languages_totals())": "n"}))
     # ---- second batch: cache reuse, lexer arithmetic, brace matching
     SC="codelimit/common/Scanner.py"
     out.append(t_expr(SC,"_scan_file","reuse_cached_entry",[("has_entry","bool"),("cached_ck","Z"),("checksum","Z")],"bool",
